@@ -86,3 +86,29 @@ let register_c17 reg =
       show_bool (c01_ok (zv ns) (zv nf) (zv nd) (zv ts) (zv tf) (zv td) (bv mon) (zv ms) (zv mf) (zv md))
     | _ -> failwith "c01_ok: arity")
 let () = section register_c17
+
+(* ---- C06 / C07 / C20 *)
+let act_of = function
+  | L [I k; a] -> (match z_to_int k with 0 -> ARegister (natv a) | 5 -> AMark (natv a) | _ -> failwith "act2")
+  | L [I k] -> (match z_to_int k with 1 -> AFail | 2 -> AFailNow | 3 -> APanicErr | 4 -> APanicVal | _ -> failwith "act1")
+  | _ -> failwith "act"
+let acts_of v = List.map act_of (lv v)
+let tab_of v = let t = Array.of_list (List.map acts_of (lv v)) in
+  fun c -> let i = z_to_int (Z.of_nat c) in if i < Array.length t then t.(i) else []
+let show_bools l = show_list show_bool l
+let register_c06 reg =
+  reg "worker_obs" (function
+    | [tab; bodies] -> let (es, fs) = worker_obs (tab_of tab) (List.map acts_of (lv bodies)) in
+      "ok [" ^ show_zlist es ^ "," ^ show_bools fs ^ "]"
+    | _ -> failwith "worker_obs: arity");
+  reg "run_obs" (function
+    | [tab; setup] -> let ((es, it), f) = run_obs (tab_of tab) (acts_of setup) in
+      "ok [" ^ show_zlist es ^ "," ^ show_bool it ^ "," ^ show_bool f ^ "]"
+    | _ -> failwith "run_obs: arity");
+  reg "combine_obs" (function
+    | [tab; comps; k] ->
+      let cs = List.map (function L [s; r] -> (acts_of s, acts_of r) | _ -> failwith "comp") (lv comps) in
+      let ((ses, sf), (es, fs)) = combine_obs (tab_of tab) cs (natv k) in
+      "ok [[" ^ show_zlist ses ^ "," ^ show_bool sf ^ "],[" ^ show_zlist es ^ "," ^ show_bools fs ^ "]]"
+    | _ -> failwith "combine_obs: arity")
+let () = section register_c06
